@@ -60,7 +60,7 @@ def case(draw):
     return {"service": svc, "interval": draw(interval_st), "periods": m, "frac": draw(st.sampled_from([0.25, 0.5, 0.75])),
             "rate": draw(st.one_of(st.integers(1, 10), dyadic(0, 10).filter(lambda x: x > 0))), "actions": actions,
             "ctor": draw(st.sampled_from(["direct", "template"])), "D0": draw(st.sampled_from([0, 0, 3, 9])),
-            "dead": dead and svc in ("linear", "relative")}
+            "dead": dead and svc in ("linear", "relative"), "pre_write": draw(st.one_of(st.none(), value)) if svc == "buffer" else None}
 
 
 class TooManySteps(Exception):
@@ -133,6 +133,9 @@ def run_case(spec) -> Result:
         res.fail("ctor", f"{type(e).__name__}: {e}")
         return res
 
+    if spec.get("pre_write") is not None:
+        service.demand = spec["pre_write"]  # written after construction, before the service starts running
+        timeline.append((-1.0, "bufwrite", spec["pre_write"]))
     actions = sorted(((action_time(a, interval), i, a) for i, a in enumerate(spec["actions"])), key=lambda x: (x[0], x[1]))
     actions = [x for x in actions if x[0] < duration]
 
